@@ -63,11 +63,11 @@ def registries(port):
 
 
 def aggregators(port, mod):
-    return [c for c in port.classes_in(mod) if {'increment', 'get_final'} <= set(methods(c))]
+    return [c for c in port.classes_in(mod) if {'increment', 'get_final'} <= set(methods(c)) and not getattr(c, 'verif_new_base', False)]
 
 
 def joiners(port, mod):
-    return [c for c in port.classes_in(mod) if 'get_rhs' in methods(c)]
+    return [c for c in port.classes_in(mod) if 'get_rhs' in methods(c) and not getattr(c, 'verif_new_base', False)]
 
 
 MINIMA = {
